@@ -23,6 +23,7 @@ import numpy as np
 from harness import core
 from harness import lib_c02c14 as L
 from harness import lib_c14cf as CF
+from harness import lib_c14hist as FH
 
 FEAT = {"inline": False, "init": True, "unused": True, "func": True, "func_in_body": True, "nested_func": True,
         "vary": True, "collide": True, "rmax": True, "mixed": True, "generic": True, "func_if": True, "ml": True}
@@ -351,6 +352,11 @@ def case_worker(task):
 def _case_worker(task):
     seed, idx, mode = task
     rng = random.Random(f"c14:{seed}:{idx}")
+    if mode == "fhist":
+        # several models over the SAME already-built call of a function that calls functions; every model judged
+        k = idx - 4 * 10**6
+        case = FH.HAND_CASES[k] if k < len(FH.HAND_CASES) else FH.gen_case(rng)
+        return {"mode": "fhist", "case": case, "recs": FH.judge_history(case)}
     if mode == "cf":
         # a function whose body holds control flow, applied at differently typed call sites in one model
         k = idx - 3 * 10**6
@@ -395,6 +401,29 @@ def _case_worker(task):
             except Exception as e:  # noqa: BLE001
                 r["fg"], r["real"], r["imports"] = None, ("unobservable", f"{type(e).__name__}: {e}"), []
         return r
+
+
+def judge_fhist(ck, fh_results):
+    """Verdicts of the function histories: every model of every history was judged in the worker."""
+    st = {"histories": len(fh_results), "models": 0, "returned": 0, "later_models": 0, "max_depth": 0, "steps": {}}
+    best = {}
+    for r in fh_results:
+        case = r["case"]
+        st["max_depth"] = max(st["max_depth"], case["depth"])
+        for n, rec in enumerate(r["recs"]):
+            st["models"] += 1
+            st["returned"] += int(rec["status"] == "ok")
+            st["later_models"] += int(n > 0)
+            lab = rec["label"].split(":", 1)[-1]
+            st["steps"][lab] = st["steps"].get(lab, 0) + 1
+            ck.count(("fhist", json.dumps(case, sort_keys=True), rec["label"]) if n > 0 and rec["status"] == "ok" else None)
+            for key, what in rec["fails"]:
+                cur = best.get(key)
+                if cur is None or len(json.dumps(case)) < len(json.dumps(cur[1])):
+                    best[key] = (what, case)
+    for key, (what, case) in list(best.items())[:4]:
+        ck.failure(key, what, {"fhist": case})
+    ck.cov["function_histories"] = st
 
 
 def judge_cf(ck, cf_results):
@@ -595,14 +624,16 @@ def run(ck: core.Check):
         # (the full thorough counts would take the quick tier far beyond its time budget on a loaded machine)
         return t if ck.thorough else (min(t, int(q * 2.5)) if escalated else q)
 
-    n_oracle = pick(700, 6000)
-    n_collect = pick(400, 4000)
-    n_sem = pick(250, 2500)
+    n_oracle = pick(350, 6000)
+    n_collect = pick(220, 4000)
+    n_sem = pick(150, 2500)
     tasks = ([(ck.seed, i, "oracle") for i in range(n_oracle)]
              + [(ck.seed, 10**6 + i, "collect") for i in range(n_collect)]
              + [(ck.seed, 2 * 10**6 + i, "sem") for i in range(n_sem)])
-    n_cf = len(CF.HAND_CASES) + pick(300, 2500)
+    n_cf = len(CF.HAND_CASES) + pick(120, 2500)
     tasks += [(ck.seed, 3 * 10**6 + i, "cf") for i in range(n_cf)]
+    n_fh = len(FH.HAND_CASES) + pick(80, 1500)
+    tasks += [(ck.seed, 4 * 10**6 + i, "fhist") for i in range(n_fh)]
     results = L.robust_map(case_worker, tasks, min(14, mp.cpu_count()), core.WORK)
     rng = ck.rng
     for hs in HAND_SPECS:
@@ -618,6 +649,9 @@ def run(ck: core.Check):
         ck.broken("correspondence", "C14 generated-program worker failed",
                   f"{len(crashes)} cases; first: {crashes[0]['crash']} {crashes[0].get('trace', '')[-400:]}")
     results = [r for r in results if not r.get("crash")]
+    fh_results = [r for r in results if r["mode"] == "fhist"]
+    results = [r for r in results if r["mode"] != "fhist"]
+    judge_fhist(ck, fh_results)
     cf_results = [r for r in results if r["mode"] == "cf"]
     results = [r for r in results if r["mode"] != "cf"]
     judge_cf(ck, cf_results)
@@ -793,6 +827,15 @@ def run(ck: core.Check):
 
 def replay(ck: core.Check, doc) -> bool:
     case = doc.get("case") or {}
+    if case.get("fhist") is not None:
+        failing = False
+        for rec in FH.judge_history(case["fhist"]):
+            if rec["status"] == "err":
+                print(f"{rec['label']} raised:", rec.get("err"))
+            for k, w in rec["fails"]:
+                print(f"{k}: {w}")
+            failing |= bool(rec["fails"])
+        return failing
     if case.get("cf") is not None:
         r = CF.judge(case["cf"], random.Random(0), case.get("feeds"))
         if r["status"] == "err":
